@@ -84,11 +84,12 @@ def log(l):
 
 def step(st, ob):
     odd = bool(ob.get("unexpected")) or bool(ob.get("panic")) or ob["fresh_cert_err"] in ("panic", "harness") or ob["fresh_dns_err"] in ("panic", "harness")
-    return "(mkOstep %s %s %s %s %s %s %s %s %s %s %s %s %s %s)" % (
+    return "(mkOstep %s %s %s %s %s %s %s %s %s %s %s %s %s %s %s %s %s)" % (
         vs(st["vs"]), faults(st["cm_faults"]), faults(st["dns_faults"]),
         log(ob["cm"]["log"]), result(ob["cm"]["err"]), store(ob["cm"]["store"], cert),
         log(ob["dns"]["log"]), result(ob["dns"]["err"]), store(ob["dns"]["store"], dnsep),
-        B(odd), C.cq_opt(ob["fresh_cert"], cert), result(ob["fresh_cert_err"]),
+        C.cq_opt(ob["cm"].get("cache"), lambda l: store(l, cert)), C.cq_opt(ob["dns"].get("cache"), lambda l: store(l, dnsep)),
+        B(bool(ob.get("cache_mutated"))), B(odd), C.cq_opt(ob["fresh_cert"], cert), result(ob["fresh_cert_err"]),
         C.cq_opt(ob["fresh_dns"], dnsep), result(ob["fresh_dns_err"]))
 
 
@@ -146,7 +147,7 @@ def judge(run, cases, res, probe):
                 run.failing({"kind": "panic"}, [c], "synchronization panicked at step %d of case %d: %s" % (i, c["id"], so["panic"][:300]),
                             theorem="Sync.Cases (no panic)")
     for row in res:
-        cid, agree, spec, nontrivial, tags, xbad, fbad, idem, fc, fd, gc, writes = row
+        cid, agree, spec, nontrivial, tags, xbad, fbad, idem, fc, fd, gc, writes, cbad = row
         c = byid[cid]
         canon = {"init_certs": c["init_certs"], "init_dns": c["init_dns"], "steps": c["steps"]}
         run.count_case(canon, bool(nontrivial))
@@ -160,6 +161,16 @@ def judge(run, cases, res, probe):
                 bt[name] = bt.get(name, 0) + 1
         cl = run.cov.setdefault("by_class", {})
         cl[c["class"]] = cl.get(c["class"], 0) + 1
+        for st in c["steps"]:
+            if st["kind"] == "retry":
+                run.cov["retries_after_failed_write"] = run.cov.get("retries_after_failed_write", 0) + 1
+        if cbad >= 0:
+            mut = c["obs"]["steps"][cbad].get("cache_mutated") or []
+            run.failing({"kind": "cache-mutated", "resource": sorted(set(m.split(" ")[0] for m in mut))}, [c],
+                        "case %d step %d (%s): the synchronization wrote into lister-cache objects in place: %s (cm log %s err %r, dns log %s err %r); "
+                        "the informer cache no longer reflects the cluster, later synchronizations decide on content the cluster never received"
+                        % (cid, cbad, c["steps"][cbad]["kind"], mut, c["obs"]["steps"][cbad]["cm"]["log"], c["obs"]["steps"][cbad]["cm"]["err"],
+                           c["obs"]["steps"][cbad]["dns"]["log"], c["obs"]["steps"][cbad]["dns"]["err"]), theorem="Sync.Cases (lister cache untouched)")
         if fbad >= 0:
             run.failing({"kind": "foreign-touched"}, [c],
                         "case %d step %d: a write/delete targeted an object the VirtualServer does not control, or such an object changed "
@@ -198,8 +209,9 @@ TRUSTED = [
     "hand-written model coq/Sync/Model.v of internal/certmanager/sync.go + helper.go and internal/externaldns/sync.go, tied by the correspondence "
     "harness harness/overlay/internal/verifh/c20 (real SyncFnFor of both packages, generated fake clientsets as the cluster, generated listers over "
     "cache indexers as the informer caches, reactors for faults)",
-    "the fake object tracker + a JSON round trip per object stand in for the API server and the watch; listers are refreshed between, not during, "
-    "synchronizations",
+    "the object tracker of the fake clientset is the cluster; the indexers behind the real generated listers are the informer caches and hand the "
+    "synchronization functions the very pointers they store; after every synchronization the harness delivers the watch event (fresh JSON-decoded "
+    "object) of each object whose stored version changed and of nothing else, and deep-compares every cache object with a copy taken before the call",
     "library verdicts used as oracles and passed to the model: time.ParseDuration, validation.IsValidIP, netutils.ParseIPSloppy; the cert-manager "
     "key-usage table is transcribed (23 names) and compared through the harness",
 ]
@@ -250,11 +262,12 @@ def check(run):
     run.cov["rule"] = ("one case = one history: an initial cluster (classes clean / preexisting / faults / mixed; pre-existing same-named Certificates and "
                        "DNSEndpoints with no owner, a foreign controller, a non-controller reference to the VirtualServer, or owned and drifted) and 3-8 "
                        "synchronizations of a VirtualServer that is edited in between (each cert-manager and ExternalDNS field, secret rename, host, labels, "
-                       "external endpoints, feature removal, re-sync without edit, another VirtualServer / same name with a new uid), API faults popped per "
-                       "write.  A history is distinct by its full input and non-trivial when at least one write was issued.  Fixed witness histories of "
+                       "external endpoints, feature removal, re-sync without edit, retry after a failed write, another VirtualServer / same name with a new uid), "
+                       "API faults popped per write; freshness / gc / idempotence are judged on the cluster object after every synchronization that returns nil.  A history is distinct by its full input and non-trivial when at least one write was issued.  Fixed witness histories of "
                        "the refutation theorems run first.")
     run.cov["trusted_base"] = TRUSTED
-    run.assumptions += ["listers are as fresh as the cluster at the start of every synchronization (informer lag between synchronizations is not explored)",
+    run.assumptions += ["the lister reflects the cluster at the start of every synchronization (explicit hypothesis: C20_lister_reflects_cluster; established by the "
+                        "harness through watch delivery and reported when the code under test breaks it); informer lag between synchronizations is not explored",
                         "owned Certificates are named after their secret (what the controller itself creates); hand-edited owned objects are only "
                         "compared with the model, the four properties are not judged on them",
                         "one namespace; a decoy pair in another namespace must stay untouched"]
@@ -272,11 +285,15 @@ def replay(run, path):
     for c in cases:
         print("replay case %d (class %s), certNeedsUpdate probe %s" % (c["id"], c["class"], {k: v for k, v in probe.items() if k in ("dur", "renew", "usages", "igroup")}))
         for i, (st, ob) in enumerate(zip(c["steps"], c["obs"].get("steps") or [])):
-            print("  step %d %-8s vs=%s/%s impl: cm log=%s err=%r | dns log=%s err=%r | unexpected=%s" % (
-                i, st["kind"], st["vs"]["name"], st["vs"]["uid"], ob["cm"]["log"], ob["cm"]["err"], ob["dns"]["log"], ob["dns"]["err"], ob["unexpected"]))
+            print("  step %d %-8s vs=%s/%s faults cm=%s dns=%s impl: cm log=%s err=%r | dns log=%s err=%r | unexpected=%s | cache_mutated=%s" % (
+                i, st["kind"], st["vs"]["name"], st["vs"]["uid"], st["cm_faults"], st["dns_faults"], ob["cm"]["log"], ob["cm"]["err"],
+                ob["dns"]["log"], ob["dns"]["err"], ob["unexpected"], ob.get("cache_mutated")))
+            if ob["cm"].get("cache") is not None or ob["dns"].get("cache") is not None:
+                print("         lister cache before the step differed from the cluster: certs=%s dns=%s" % (
+                    json.dumps(ob["cm"].get("cache"))[:500], json.dumps(ob["dns"].get("cache"))[:500]))
             print("         stores: certs=%s dns=%s" % (json.dumps(ob["cm"]["store"])[:600], json.dumps(ob["dns"]["store"])[:400]))
         r = rows.get(c["id"])
         if r:
-            print("  model: agrees=%d (first disagreeing step %d)  spec=%d foreign-bad-step=%d idem-mask=%d fresh-cert-mask=%d fresh-dns-mask=%d gc-mask=%d"
-                  % (r[1], r[5], r[2], r[6], r[7], r[8], r[9], r[10]))
+            print("  model: agrees=%d (first disagreeing step %d)  spec=%d foreign-bad-step=%d cache-mutating-step=%d idem-mask=%d fresh-cert-mask=%d fresh-dns-mask=%d gc-mask=%d"
+                  % (r[1], r[5], r[2], r[6], r[12], r[7], r[8], r[9], r[10]))
     judge(run, cases, res, probe)
